@@ -85,6 +85,20 @@ CLAIMS = {
         "note": "No schedule is explored (the only concurrency claim is type-level); propagation through the other `?` sites of interpret is read.",
         "design_ref": "DESIGN.md section 4 C18",
     },
+    "C08": {
+        "engine": "V+K",
+        "technique": "Verus contract on the WriteText arm of interpret (arm extraction); Kani bounded harnesses on the lexer's start-marker search",
+        "text": "Proof for all VM states: the WriteText arm appends exactly the bytes of the literal text to the current sink (innermost capture buffer, else the output), unescaped, touches no other sink and surfaces a writer failure as Err (VM half of 'text is written byte-for-byte').",
+        "note": "The tokenizer state machine, the whitespace filter and the parser's handling of empty text are not decided; the lexer helpers are bounded harnesses.",
+        "design_ref": "DESIGN.md section 4 C08",
+    },
+    "C12": {
+        "engine": "V+K",
+        "technique": "Verus contracts on the extracted Span::expand and Chunk::expand_span; Kani full-domain contract on combine_spans",
+        "text": "Proof: Span::expand keeps the start fields and takes end line/column/range end from the other span; Chunk::expand_span returns None iff an endpoint instruction has no span and otherwise a span that starts where the first starts and ends where the last ends; combine_spans returns the least range covering both.",
+        "note": "Line/column bookkeeping in the tokenizer, report_target and SourceLocation slicing are not decided; get_span is a trusted declaration; derived Clone of Span assumed to return an equal value.",
+        "design_ref": "DESIGN.md section 4 C12",
+    },
 }
 
 _PENDING = "no check is registered for this property yet in this build of the machinery"
